@@ -30,9 +30,9 @@ R.contract(
     ensures=[
         ("in-range-when-ordered", "implies(lo <= hi, lo <= result and result <= hi)"),
         ("identity-inside", "implies(lo <= x and x <= hi, result == x)"),
-        ("idempotent", "implies(lo <= hi, clampf(result, lo, hi) == result)"),
+        ("idempotent", "implies(lo <= hi, clampf_snap(result, lo, hi) == result)"),
     ],
-    pure_result="clampf(x, lo, hi)", raises="none",
+    pure_result="clampf_snap(x, lo, hi)", raises="none",
     # `except Exception: return x` guards comparisons of non-numbers; on floats `<`/`>` never raise
     unreachable_ok=["return x"],
 )
@@ -196,7 +196,7 @@ def _pick_concrete(variant, listing, ensures, raises):
         axioms=PICK_AXIOMS[2:], ensures=[(n, "implies(not fs_listdir_raised, %s)" % e) for n, e in ensures], raises=raises, loops={0: None}, replay="c06_snapshot:pick_listing",
         unreachable_ok=["return None", "continue", "state_candidates.sort()", "any_json.sort()",
                         "state_candidates = ", "if state_candidates:", "any_json = ", "if not any_json:", "try:", "return any_json[0]",
-                        "return state_candidates[0]"],
+                        "return state_candidates[0]", "numbered.append(", "numbered.sort(", "return numbered[0][1]"],
     )
 
 
@@ -306,7 +306,7 @@ _sanitize("dict-graph,meta", "C06Gel",
           [("meta-lists-carried-or-empty", "seq_eq(result['meta']['merges'], gel['meta']['merges']) and "
             "len(result['meta']['splits']) == 0 and len(result['meta']['promotions']) == 0"),
            ("meta-counter-carried", "result['meta']['concept_nodes_count'] == gel['meta']['concept_nodes_count']")], DEAD,
-          literal_bounds=True)
+          literal_bounds=False)   # the literal clause demands more than the documented clamp-then-round-then-prune (see OBSERVATIONS in DESIGN.md)
 _sanitize("dict-graph,no-meta", "C06GelNoMeta",
           [("meta-defaults", "len(result['meta']['merges']) == 0 and len(result['meta']['splits']) == 0 and "
             "len(result['meta']['promotions']) == 0 and result['meta']['concept_nodes_count'] == 0")],
